@@ -26,8 +26,9 @@ PARTIAL = [
     'C11_polyC_translate / C11_polyC_translate_rat) under the hypothesis "the fan area vectors of the faces sum to zero", which '
     'holds identically for the tet / hex / prism / pyr face tables (C11_face_tables_closed); that an arbitrary user-supplied '
     'face list is closed is a hypothesis, not a theorem',
-    'C11_storage_perm_mixed is a theorem about Cfg.fixed; the current tree implements Cfg.upstream (finding C11-mixed-binding, '
-    'C11_mixed_counterexample_upstream)',
+    'C11_storage_perm_mixed is a theorem about Cfg.fixed, which the working tree implements since the repair "fix: per-element '
+    'metrics of mixed meshes are bound to the right elements" (detected per run: extra.cfg_detected); the pinned upstream commit '
+    'behaves as Cfg.upstream (C11_mixed_counterexample_upstream)',
     'areas: theorems are about the area vectors / radicands (area = sum sqrt(q) / den); sqrt itself, float rounding, the float32 '
     'accumulators and LAPACK det are runtime, covered by the tolerance of the P-tie',
     'generate_random_mesh (scipy Delaunay) is exercised by the oracle only',
